@@ -23,6 +23,7 @@ Three kinds of cases, all decided inside Coq (Corr/C20.v):
 """
 import ast
 import inspect
+import json
 import os
 import random
 import shutil
@@ -31,7 +32,7 @@ import tempfile
 from harness.lib import hx, zl, cz, cbool, clist
 
 ID = 'C20'
-RULE = ('two-step chains (10 hidden-state preparations x 21 table functions x 12 lazily read formats); registry of 98 public functions x generated arguments (text numbers with -, +, scientific floats, empty fields; '
+RULE = ('two-step chains (10 hidden-state preparations x 21 table functions x 12 lazily read formats); registry of 115 public functions (98 + 17 round-6 entries: BAM tables, matrix dump/parse, PWM scores, rolling_window(mode=same), apply_variants_to_sequence, bedgraph pileup, EncodedArray / ragged array-function routes on strided, read-only and reversed arguments, MultiStream, compute graphs, replace/add_fields/sort_by/groupby chains on derived tables) x generated arguments (text numbers with -, +, scientific floats, empty fields; '
         'intervals; sequences; tables; genomic data) in four memory layouts (fresh, row-slice view, column-slice view, '
         'field of a file chunk); every lazily read format with all fields inspected; plus one static case per '
         'in-place-writing site.  non-trivial = the call returned without exception and the arguments reach at least '
@@ -44,8 +45,13 @@ ASSUMPTIONS = ['writes inside NumPy / npstructures follow the aliasing classes o
                'reachability (gc.get_referents) for one argument tuple of every registered function and a lazily read chunk of '
                'every format (probe flag walker_complete)',
                'buffers longer than 24 bytes are compared inside Coq through a 16-byte SHA-256 prefix (full bytes in the replay)',
-               'every in-place write of the 8 anchored files is inside a function the extractor analysed (Gen/C20.v, proved safe '
-               'in Bridge/C20.v) or in the accepted list ACCEPTED_WRITES with its reason (probe flag no_unregistered_write)']
+               'WRITE GATE (round 6: the whole package): every in-place-writing statement of bionumpy/**/*.py (subscript / attribute / '
+               'augmented assignment, out=, sort/fill/resize/put.., np.put/place/copyto.., ufunc.at, setattr/delattr, del x[..], explicit '
+               '__setitem__/__iadd__ calls, self.attr rebinding outside constructors) is inside a function the extractor analysed '
+               '(Gen/C20.v, proved safe in Bridge/C20.v), or in ACCEPTED_WRITES (anchored files), or listed with a reason and a statement '
+               'count in notes/C20.allowlist.json; anything else fails the run (probe flag no_unregistered_write). The allow-list reasons '
+               'are reviewed by hand, not proved; two entries are marked NOT PROVED (rolling_window mode=same, VCF position -= 1) and one '
+               'is a DEFECT of unreachable-in-practice code (memory_efficient_pileup)']
 PARTIAL = ['THIN MODEL for call and chunk cases: the model of a registered call / of inspecting a chunk is "nothing changes" '
            '(plus flatten;view for the genotype encodings); model_ok there adds nothing to spec_ok. What carries those cases is '
            'spec_ok = snapshot comparison decided in Coq, i.e. differential testing over the registry, not proof',
@@ -53,7 +59,9 @@ PARTIAL = ['THIN MODEL for call and chunk cases: the model of a registered call 
            'rules, run-time probes of its tables, mutation self-test); it does not descend into NumPy/npstructures',
            'unclassified operations are over-approximated (write to every argument, alias of all) rather than rejected',
            'registry: see notes/C20.md for the public names not exercised (file-path / plotting / CLI / configuration helpers, '
-           'BAM, Matrix, MultiStream, compute graphs)']
+           'set_backend, GenomicAnnotation, count_entries)',
+           'virtual dispatch: self.m(..) / self(..) are resolved through the class the site is registered with; subclasses overriding '
+           'a callee are separate sites or not covered (rolling_window: checker rejects 5 of 7 subclasses, left to the allow-list)']
 PER_FILE = 40
 
 # =============================================================================================== snapshots
@@ -373,9 +381,229 @@ def registry():
         R['encode_' + _nm] = (lambda v: (T(v),), (lambda enc: lambda t: as_encoded_array(t, enc))(_enc))
         R['decode_' + _nm] = ((lambda enc: lambda v: (as_encoded_array(T(v), enc),))(_enc),
                               (lambda enc: lambda t: [enc.decode(t.ravel()) if hasattr(enc, 'decode') else None, change_encoding(t, BaseEncoding) if _nm != 'quality' else None])(_enc))
+    _registry_round6(R)
     return R
 
 
+# --------------------------------------------------------------------------------------------- round 6 (dynamic side)
+R6_FLAT_LAYOUTS = ['contig', 'strided', 'readonly', 'reversed']     # EncodedArray / ndarray arguments
+R6_NUM_LAYOUTS = ['fresh', 'rowslice', 'noncontig', 'readonly']     # numeric matrices / ragged arrays
+R6_BAM_LAYOUTS = ['fresh', 'rowslice', 'mask', 'touched']           # a BAM chunk; touched = every field already accessed
+R6_TABLE_LAYOUTS = ['fresh', 'rowslice', 'derived_replace', 'derived_sorted']   # derived_* = the result of a previous operation
+
+
+def _flat_layout(a, layout):
+    """A flat EncodedArray / ndarray as: the array itself, every other element of a twice-as-long array (strided view), a
+    read-only array, or a reversed (negative stride) view."""
+    import numpy as np
+    if layout == 'contig':
+        return a
+    if layout == 'strided':
+        return _interleave_self(a)[::2]
+    if layout == 'readonly':
+        b = a.copy()
+        (b.raw() if hasattr(b, 'raw') else b).flags.writeable = False
+        return b
+    if layout == 'reversed':
+        return a[::-1].copy()[::-1]
+    raise ValueError(layout)
+
+
+def _interleave_self(a):
+    import numpy as np
+    idx = np.repeat(np.arange(len(a)), 2)
+    return a[idx]
+
+
+def _num_matrix(v):
+    import numpy as np
+    m = np.array(v['matrix'], dtype=int)
+    lay = v.get('layout', 'fresh')
+    if lay == 'rowslice':
+        m = np.concatenate([m[:1], m, m[:1]])[1:-1]
+    elif lay == 'noncontig':
+        m = np.ascontiguousarray(m.T).T                # Fortran-ordered view of a C buffer
+    elif lay == 'readonly':
+        m = m.copy()
+        m.flags.writeable = False
+    return m
+
+
+def _num_ragged(v):
+    import numpy as np
+    from npstructures import RaggedArray
+    rows = [list(r) for r in v['lists']]
+    lay = v.get('layout', 'fresh')
+    if lay == 'rowslice':
+        return RaggedArray([[7]] + rows + [[8, 9]])[1:-1]
+    if lay == 'noncontig':
+        return RaggedArray([r + [0] for r in rows])[:, :-1]
+    a = RaggedArray(rows)
+    if lay == 'readonly':
+        a.ravel().flags.writeable = False
+    return a
+
+
+def _bam_chunk(v):
+    import numpy as np
+    import bionumpy as bnp
+    d = tempfile.mkdtemp(prefix='c20_')
+    try:
+        p = os.path.join(d, 'x.bam')
+        with open(p, 'wb') as f:
+            f.write(bytes.fromhex(v['bam']))
+        ch = bnp.open(p).read()
+    finally:
+        shutil.rmtree(d, ignore_errors=True)
+    lay = v.get('layout', 'fresh')
+    if lay == 'rowslice':
+        ch = ch[1:]
+    elif lay == 'mask':
+        ch = ch[np.arange(len(ch)) % 2 == 0]
+    elif lay == 'touched':
+        for f in _field_names(ch):
+            getattr(ch, f)
+    return ch
+
+
+def _tries(*thunks):
+    """Results of several operations, an exception becoming its class name (deterministic)."""
+    out = []
+    for t in thunks:
+        try:
+            out.append(t())
+        except Exception as e:
+            out.append('error:' + type(e).__name__)
+    return out
+
+
+def _table_layout(v, stranded=False):
+    import bionumpy as bnp
+    lay = v.get('layout', 'fresh')
+    if lay in ('fresh', 'rowslice'):
+        return _intervals(v['rows'], stranded, lay)
+    t = _intervals(v['rows'], stranded, 'fresh')
+    if lay == 'derived_replace':
+        return bnp.replace(t, start=t.start + 0)          # shares every other column with t
+    if lay == 'derived_sorted':
+        return t.sort_by('stop')[::-1]
+    raise ValueError(lay)
+
+
+def _gen_bam(rng, n):
+    """Bytes of a small valid BAM file (built with C16's spec-level encoder)."""
+    from harness.props import c16
+    refs = [['chr1', 1000], ['chr2', 500]]
+    recs = []
+    for _ in range(n):
+        r = c16._rec(rng, 2, name_len=rng.randint(1, 6), n_cigar=rng.randint(1, 3), l_seq=rng.randint(1, 9), unmapped=False, tags=False)
+        r['pos'] = rng.randint(0, 400)
+        r['cigar'] = [[rng.randrange(9), rng.randint(1, 60)] for _ in r['cigar']]
+        r['flag'] = rng.choice([0, 16, 99, 147])
+        recs.append(r)
+    case = dict(text=b'@HD\tVN:1.6\n'.hex(), refs=refs, recs=recs, container=dict(kind='gzip'))
+    return c16.container_bytes(case, c16.stream_bytes(case))
+
+
+def _registry_round6(R):
+    """Round 6: public entry points the registry did not exercise — BAM tables, matrix dump / parse, PWM scores over a
+    whole sequence, rolling_window(mode='same'), apply_variants_to_sequence, bedgraph.get_pileup, EncodedArray
+    array-function routes on strided / read-only / reversed arguments, numeric ragged ufuncs, MultiStream, streamed
+    compute graphs, and replace / add_fields / sort_by / groupby chains on derived tables."""
+    import numpy as np
+    import bionumpy as bnp
+    from bionumpy.encoded_array import as_encoded_array
+    from npstructures import RaggedArray
+    from bionumpy.datatypes import Interval, VCFEntry
+
+    D = lambda v: _text(v['strs'], v.get('layout', 'fresh'), bnp.DNAEncoding)
+    DF = lambda v: _flat_layout(as_encoded_array(''.join(v['strs']), bnp.DNAEncoding), v.get('layout', 'contig'))
+    TF = lambda v: _flat_layout(as_encoded_array(','.join(v['strs'])), v.get('layout', 'contig'))
+    pwm = lambda: bnp.sequence.position_weight_matrix.PWM.from_dict({'A': [1., 2.], 'C': [2., 1.], 'G': [0., 1.], 'T': [3., 0.5]})
+    # ---- BAM tables (binary reader; file bytes built with C16's encoder)
+    R['bam_fields'] = (lambda v: (_bam_chunk(v),), lambda ch: _tries(*[(lambda f=f: getattr(ch, f)) for f in _field_names(ch)]))
+    R['bam_to_interval'] = (lambda v: (_bam_chunk(v),), lambda ch: _tries(lambda: bnp.alignments.alignment_to_interval(ch)))
+    R['bam_table_ops'] = (lambda v: (_bam_chunk(v),), lambda ch: _tries(
+        lambda: ch[::-1].position, lambda: np.concatenate([ch, ch]).name, lambda: ch.get_data_object().tolist()[:1] and len(ch),
+        lambda: ch[ch.mapq >= 0].flag, lambda: bnp.replace(ch, position=ch.position + 1).position, lambda: str(ch.cigar_length)))
+    # ---- matrices
+    from bionumpy.io import matrix_dump as md
+    R['matrix_to_csv'] = (lambda v: (_num_matrix(v),), lambda m: _tries(
+        lambda: md.matrix_to_csv(m, header=['c%d' % i for i in range(m.shape[-1])]), lambda: md.matrix_to_csv(m, sep='\t')))
+    R['parse_matrix'] = (lambda v: (_flat_layout(as_encoded_array(v['text']), v.get('layout', 'contig')),), lambda t: _tries(
+        lambda: [md.parse_matrix(t, field_type=int).data, md.parse_matrix(t, field_type=int).row_names],
+        lambda: md.parse_matrix(t, field_type=float, rowname_type=None).data))
+    # ---- sequence functions not covered before
+    R['pwm_calculate_scores'] = (lambda v: (DF(v),), lambda s: pwm().calculate_scores(s))
+    # mode='same' builds its windows with as_strided over the whole sequence, so the last window_size-1 windows READ BEYOND
+    # THE END of the buffer (their results are zeroed afterwards).  A PositionWeightMatrix validates / indexes with those
+    # bytes: whether it raises depends on adjacent heap memory, so the same call can give different results (seen in the
+    # thorough tier: rolling_same_flat, reversed layout, results_differ with unchanged inputs).  Not an input modification
+    # and not deterministic, so the PWM route is NOT part of the registered call (see notes, Round 6); the k-mer encoder and
+    # the string matcher do not look at the values and are deterministic.
+    R['rolling_same'] = (lambda v: (D(v),), lambda s: _tries(
+        lambda: bnp.sequence.kmers.KmerEncoder(2, bnp.DNAEncoding).rolling_window(s, mode='same'),
+        lambda: bnp.sequence.string_matcher.StringMatcher('AC', bnp.DNAEncoding).rolling_window(s, mode='same')))
+    R['rolling_same_flat'] = (lambda v: (DF(v),), lambda s: _tries(
+        lambda: bnp.sequence.kmers.KmerEncoder(2, bnp.DNAEncoding).rolling_window(s, mode='same'),
+        lambda: np.asarray(bnp.sequence.string_matcher.StringMatcher('AC', bnp.DNAEncoding).rolling_window(s, mode='same'))[:-1]))
+
+    def variants_for(seq):
+        n = len(seq)
+        pos = sorted(set([0, n // 2, n - 1]))
+        s = seq.to_string() if hasattr(seq, 'to_string') else str(seq)
+        comp = {'A': 'C', 'C': 'G', 'G': 'T', 'T': 'A'}
+        return VCFEntry.from_entry_tuples([('chr1', p, '.', s[p], comp.get(s[p], 'A'), '.', '.', '.') for p in pos])
+    from bionumpy.variants.consensus import apply_variants_to_sequence
+    R['apply_variants'] = (lambda v: (DF(v), variants_for(as_encoded_array(''.join(v['strs']), bnp.DNAEncoding))),
+                           lambda s, vs: _tries(lambda: apply_variants_to_sequence(s, vs)))
+    from bionumpy.arithmetics import bedgraph as bg
+    R['bedgraph_get_pileup'] = (lambda v: (_table_layout(v),), lambda t: _tries(lambda: [bg.get_pileup(t, 60).starts, bg.get_pileup(t, 60).values]))
+    # ---- EncodedArray array-function / ufunc routes on views, strides, read-only arrays
+    R['ea_array_functions'] = (lambda v: (DF(v),), lambda s: _tries(
+        lambda: s == 'A', lambda: np.concatenate([s, s]), lambda: np.append(s, s), lambda: np.insert(s, 0, s[:1]),
+        lambda: np.where(s == 'A', s, s[::-1]), lambda: np.zeros_like(s), lambda: np.argsort(s), lambda: np.bincount(s, minlength=4),
+        lambda: np.lexsort((s,)), lambda: s[::-1], lambda: s[s != 'C'], lambda: np.lib.stride_tricks.sliding_window_view(s, 2),
+        lambda: bnp.EncodedRaggedArray(s, [len(s)]), lambda: s.reshape(1, -1), lambda: np.full_like(s, 1), lambda: s.copy()))
+    R['ea_text_functions'] = (lambda v: (TF(v),), lambda s: _tries(
+        lambda: s == ',', lambda: bnp.io.strops.split(s, ','), lambda: np.flatnonzero(s == ','), lambda: s.to_string(),
+        lambda: np.concatenate([s, s[:1]]), lambda: bnp.change_encoding(s, bnp.encodings.BaseEncoding), lambda: s[1:-1].to_string()))
+    R['ragged_numeric'] = (lambda v: (_num_ragged(v),), lambda a: _tries(
+        lambda: a + 1, lambda: np.add(a, a), lambda: a.sum(axis=-1), lambda: a.mean(axis=-1), lambda: a.max(axis=-1), lambda: a[:, 0],
+        lambda: a[::-1], lambda: np.cumsum(a, axis=-1), lambda: a.ravel() * 2, lambda: a.tolist(), lambda: np.concatenate([a, a]),
+        lambda: bnp.io.strops.int_lists_to_strings(a), lambda: a.astype(float), lambda: -a, lambda: a == a))
+    # ---- streams
+    from bionumpy.streams import NpDataclassStream, BnpStream, MultiStream
+    from bionumpy.computation_graph import StreamNode, compute
+
+    def multistream(a, b):
+        ms = MultiStream({'chr1': 60, 'chr2': 40, 'chr3': 25}, intervals=NpDataclassStream(iter([a, b]), dataclass=Interval),
+                         positions={'chr1': a.start, 'chr2': b.start, 'chr3': a.stop})
+        return [[i, p] for i, p in zip(ms.intervals, ms.positions)]
+    R['multistream'] = (lambda v: (_table_layout(dict(v, rows=[r for r in v['rows'] if r[0] == 'chr1'] or [['chr1', 1, 2, '+']])),
+                                   _intervals([r for r in v['rows2'] if r[0] == 'chr2'] or [['chr2', 3, 9, '+']])),
+                        lambda a, b: _tries(lambda: multistream(a, b)))
+
+    def graph(a, b):
+        x, y = StreamNode(iter([a[:2], a[2:]])), StreamNode(iter([b[:2], b[2:]]))
+        z = x * y + y - x
+        return [z.compute(), np.sum(StreamNode(iter([a[:1], a[1:]]))).compute(),
+                np.histogram(StreamNode(iter([a, b])), bins=3, range=(0, 60)).compute()[0]]
+    IAr = lambda v, k: _flat_layout(np.array([abs(x) % 50 for x in (v['ints'] * 4)[:4]], dtype=int)[::k].copy() if k < 0 else
+                                    np.array([abs(x) % 50 for x in (v['ints'] * 4)[:4]], dtype=int), v.get('layout', 'contig'))
+    R['compute_graph'] = (lambda v: (IAr(v, 1), IAr(v, -1)), lambda a, b: _tries(lambda: graph(a, b)))
+    R['stream_pipeline'] = (lambda v: (_table_layout(v), _intervals(v['rows2'])), lambda a, b: _tries(
+        lambda: [(k, g) for k, g in bnp.groupby(NpDataclassStream(iter([a.sort_by('chromosome'), b.sort_by('chromosome')]), dataclass=Interval), 'chromosome')],
+        lambda: bnp.bincount(BnpStream(iter([a.start, b.start])), minlength=70),
+        lambda: bnp.mean(BnpStream(iter([a.stop.astype(float), b.stop.astype(float)])))))
+    # ---- chains on (derived) tables
+    R['table_chain'] = (lambda v: (_table_layout(v, True),), lambda t: _tries(
+        lambda: bnp.replace(bnp.replace(t, start=t.start + 1), stop=t.stop + 1),
+        lambda: bnp.replace(t, start=t.start + 1).add_fields({'extra': list(range(len(t)))}, field_type_map={'extra': int}).sort_by('extra'),
+        lambda: [(k, g.sort_by('stop')) for k, g in bnp.groupby(t.sort_by('chromosome'), 'chromosome')],
+        lambda: np.concatenate([t.sort_by('start'), t[::-1]]).sort_by('stop'),
+        lambda: bnp.replace(t.sort_by('start')[::2], name=t.name[::2]).tolist().__len__(),
+        lambda: t.astype(Interval).sort_by('start').start))
 
 
 v_last = [None]
@@ -782,6 +1010,7 @@ class Scope:
         self.npfuncs = set() # names bound to NumPy functions (op = np.add if .. else np.logical_xor)
         self.returns = []
         self.born = ex.nreg  # registers >= born were created inside this function (or its callees)
+        self.defcls = None   # the class whose body defines the function being analysed (for super())
 
     # ---------------------------------------------------------------- classification of index expressions
     def is_arr(self, n):
@@ -982,6 +1211,22 @@ class Scope:
                 rs = [r for r in pos + list(kw.values()) if r is not None]
                 return ex.view(False, rs) if rs else ex.alloc()
             if isinstance(f.value, ast.Call) and isinstance(f.value.func, ast.Name) and f.value.func.id == 'super':
+                # round 6: super().m(..) — the next definition of m after the class that defines the current function, in
+                # the MRO of the class the site was resolved through; inlined with the same dynamic class
+                sfn = None
+                recv = 'self' if isinstance(self.env.get('self'), int) or 'cls' not in self.env else 'cls'
+                if self.cls is not None and self.defcls is not None and self.defcls in self.cls.__mro__ and not f.value.args:
+                    mro = self.cls.__mro__
+                    for c in mro[mro.index(self.defcls) + 1:]:
+                        if m in c.__dict__ and (c.__module__ or '').startswith('bionumpy'):
+                            sfn = _unwrap(c.__dict__[m])
+                            break
+                        if m in c.__dict__:
+                            break
+                if sfn is not None and self.depth < MAX_DEPTH:
+                    pos, kw = self.args_of(n, funcs=True)
+                    selfreg = self.env.get(recv)
+                    return inline(ex, sfn, [selfreg if isinstance(selfreg, int) else None] + pos, kw, self.depth + 1, self.cls)
                 return self.unknown_call(n, [self.env.get('self') if isinstance(self.env.get('self'), int) else None])
             if isinstance(f.value, ast.Name) and f.value.id in ('self', 'cls') and self.cls is not None:
                 target = getattr(self.cls, m, None)
@@ -1353,6 +1598,7 @@ def _inline_body(ex, fn, node, pos, kw, depth, cls):
         c = getattr(module, fn.__qualname__.split('.')[0], None)
         cls = c if inspect.isclass(c) else None
     sc = Scope(ex, module, cls, depth)
+    sc.defcls = _defining_class(module, fn)
     a = node.args
     names = [x.arg for x in a.posonlyargs + a.args]
     defaults = dict(zip(names[len(names) - len(a.defaults):], a.defaults))
@@ -1370,6 +1616,14 @@ def _inline_body(ex, fn, node, pos, kw, depth, cls):
     if not rets:
         return None
     return ex.pick(rets)
+
+
+def _defining_class(module, fn):
+    q = getattr(fn, '__qualname__', '')
+    if '.' not in q or '<locals>' in q:
+        return None
+    c = getattr(module, q.split('.')[0], None)
+    return c if inspect.isclass(c) else None
 
 
 def _resolve(path):
@@ -1435,7 +1689,31 @@ SITES = {
     30: dict(name='delimited_from_raw_buffer', np=1, steps=[('bionumpy.io.delimited_buffers:DelimitedBuffer.from_raw_buffer', [None, 'p0', None])]),
     32: dict(name='internal_comments_extractor', np=2, steps=[('bionumpy.io.delimited_buffers:DelimitedBufferWithInernalComments._get_buffer_extractor', [None, 'p0', 'p1'])]),
     33: dict(name='wierd_padding', np=1, steps=[('bionumpy.io.file_buffers:wierd_padding', ['p0', None])]),
+    # round 6: in-place-writing functions OUTSIDE the anchored files (found by the package-wide scan_tree); every
+    # parameter that can hold an array / table / buffer object is a caller's argument
+    34: dict(name='bedgraph_get_pileup', np=1, steps=[('bionumpy.arithmetics.bedgraph:get_pileup', ['p0', None])]),
+    35: dict(name='sam_carriage_return_ends', np=2, steps=[('bionumpy.io.buffers.sam:SAMBuffer._modify_for_carriage_return', [None, 'p0', 'p1'])]),
+    36: dict(name='sam_join_fields', np=1, steps=[('bionumpy.io.buffers.sam:SAMBuffer.join_fields', [None, 'p0'])]),
+    37: dict(name='join_columns', np=1, steps=[('bionumpy.io.dump_csv:join_columns', ['p0', None])]),
+    38: dict(name='matrix_to_csv', np=3, steps=[('bionumpy.io.matrix_dump:matrix_to_csv', ['p0', 'p1', None, 'p2'])]),
+    39: dict(name='multiline_fasta_from_data', np=1, steps=[('bionumpy.io.multiline_buffer:MultiLineFastaBuffer.from_data', [None, 'p0'])]),
+    40: dict(name='named_field_by_name', np=1, steps=[('bionumpy.io.named_text_buffer:NamedBufferExtractor.get_field_by_name', ['p0', None, None])]),
+    41: dict(name='named_has_field_mask', np=1, steps=[('bionumpy.io.named_text_buffer:NamedBufferExtractor.has_field_mask', ['p0', None])]),
+    42: dict(name='named_has_field_name', np=1, steps=[('bionumpy.io.named_text_buffer:NamedBufferExtractor.has_field_name', ['p0', None])]),
+    43: dict(name='one_line_join_fields', np=1, steps=[('bionumpy.io.one_line_buffer:OneLineBuffer.join_fields', [None, 'p0'])]),
+    44: dict(name='pwm_calculate_scores', np=2, steps=[('bionumpy.sequence.position_weight_matrix:PWM.calculate_scores', ['p0', 'p1'])]),
+    45: dict(name='ragged_changes', np=1, steps=[('bionumpy.streams.groupby_func:get_ragged_changes', ['p0'])]),
+    46: dict(name='interleave', np=2, steps=[('bionumpy.util:interleave', ['p0', 'p1'])]),
+    47: dict(name='column_index_array', np=1, steps=[('bionumpy.util.ascii_hash:column_index_array', ['p0'])]),
+    48: dict(name='apply_variants_to_sequence', np=2, steps=[('bionumpy.variants.consensus:apply_variants_to_sequence', ['p0', 'p1'])]),
+    49: dict(name='integer_encoding_encode', np=2, steps=[('bionumpy.encodings.integer_encoding:IntegerEncoding._encode', ['p0', 'p1'])]),
+    50: dict(name='chunk_entries', np=1, steps=[('bionumpy.streams.chunk_entries:_chunk_entries', ['p0', None])]),
+    51: dict(name='streamable_args_stream', np=1, steps=[('bionumpy.streams.decorators:streamable._args_stream', ['p0', None])]),
+    52: dict(name='legacy_streamable_args_stream', np=1, steps=[('bionumpy._legacy.npdataclassstream:streamable._args_stream', ['p0', None])]),
+    53: dict(name='twobit_swap', np=1, steps=[('bionumpy.encodings._legacy_encodings:twobit_swap', ['p0'])]),
+    54: dict(name='extract_field_types', np=2, steps=[('bionumpy.bnpdataclass.bnpdataclass:_extract_field_types', ['p0', 'p1'])]),
 }
+ROUND6_SITES = list(range(34, 55))
 
 # In-place writes of the anchored files that are NOT inside a function analysed by the extractor, each with the reason
 # why it is accepted.  Keys as produced by scan_file.  A write with any other key in an anchored file (and outside the
@@ -1514,6 +1792,7 @@ def _inline_with_funcs(ex, fn, pos, kwf, cls):
         c = getattr(module, fn.__qualname__.split('.')[0], None)
         cls = c if inspect.isclass(c) else None
     sc = Scope(ex, module, cls, 0)
+    sc.defcls = _defining_class(module, fn)
     names = [x.arg for x in node.args.args]
     for i, nm in enumerate(names):
         if nm in kwf:
@@ -1676,9 +1955,11 @@ def _observe_probe(case):
     F['arith'] = (not np.shares_memory(a, a + 1)) and (not np.shares_memory(a, a == 1)) and (not np.shares_memory(a, ~m))
     out = dict(flags=F)
     # every in-place write of the anchored files is inside a function the extractor analysed, or accepted by name
-    unreg = unregistered_writes()
-    F['no_unregistered_write'] = not unreg
+    unreg, gate_stats, stale = write_gate()
+    F['no_unregistered_write'] = (not unreg) and gate_stats['statements'] > 0
     out['unregistered_writes'] = unreg
+    out['write_gate'] = gate_stats
+    out['allowlist_stale_keys'] = stale
     # the snapshot walker reaches every buffer that generic (gc) reachability finds
     missed = walker_gaps()
     F['walker_complete'] = not missed
@@ -1809,6 +2090,7 @@ def generate(tier, seed):
                     rng.shuffle(rows)
                 for lay in ('fresh', 'rowslice'):
                     cases.append(dict(kind='call', fn=fn, v=dict(rows=rows, rows2=_gen_rows(rng, rng.randint(1, 3)), layout=lay)))
+    cases += gen_round6_cases(rng, tier)
     # file chunks: every format, lazy and eager, every inspection
     nchunk = 2 if tier == 'quick' else 10
     all_ops = ['fields', 'data_object', 'tolist', 'str', 'index', 'concat', 'pandas', 'replace']
@@ -1820,6 +2102,62 @@ def generate(tier, seed):
                 cases.append(dict(kind='chunk', fmt=fmt, name=name, file=data.hex(), bt=bt, lazy=lazy, ops=ops))
     cases += gen_chain_cases(rng, tier)
     return cases
+
+
+R6_FUNCTIONS = {
+    'bam_fields': ('bam', R6_BAM_LAYOUTS), 'bam_to_interval': ('bam', R6_BAM_LAYOUTS), 'bam_table_ops': ('bam', R6_BAM_LAYOUTS),
+    'matrix_to_csv': ('matrix', R6_NUM_LAYOUTS), 'parse_matrix': ('matrix_text', R6_FLAT_LAYOUTS),
+    'pwm_calculate_scores': ('dna', R6_FLAT_LAYOUTS), 'rolling_same_flat': ('dna', R6_FLAT_LAYOUTS),
+    'rolling_same': ('dna', TEXT_LAYOUTS), 'apply_variants': ('dna', R6_FLAT_LAYOUTS),
+    'ea_array_functions': ('dna', R6_FLAT_LAYOUTS), 'ea_text_functions': ('text', R6_FLAT_LAYOUTS),
+    'ragged_numeric': ('lists', R6_NUM_LAYOUTS), 'bedgraph_get_pileup': ('rows1', R6_TABLE_LAYOUTS),
+    'multistream': ('rows', R6_TABLE_LAYOUTS), 'stream_pipeline': ('rows', R6_TABLE_LAYOUTS),
+    'table_chain': ('rows', R6_TABLE_LAYOUTS), 'compute_graph': ('ints', R6_FLAT_LAYOUTS),
+}
+
+
+def gen_round6_cases(rng, tier):
+    """Round 6 call cases: every new registry function x its four memory layouts (x repetitions)."""
+    try:
+        from harness.props import c16   # noqa: F401  (BAM bytes are built with C16's encoder)
+        have_bam = True
+    except Exception:
+        have_bam = False
+    out = []
+    reps = 1 if tier == 'quick' else 6
+    for rep in range(reps):
+        for fn in sorted(R6_FUNCTIONS):
+            fam, layouts = R6_FUNCTIONS[fn]
+            n = rng.choice([2, 3, 5]) if rep else 3
+            if fam == 'bam':
+                if not have_bam:
+                    continue
+                base = dict(bam=_gen_bam(rng, n + 1).hex())
+            elif fam == 'matrix':
+                nc = rng.randint(1, 4)
+                base = dict(matrix=[[rng.choice([0, 7, -5, 10, 99, -12345, rng.randint(0, 10 ** 6)]) for _ in range(nc)] for _ in range(n)])
+            elif fam == 'matrix_text':
+                nc = rng.randint(1, 3)
+                base = dict(text='id\t' + '\t'.join('c%d' % i for i in range(nc)) + '\n' + ''.join(
+                    'r%d\t' % i + '\t'.join(str(rng.choice([0, 5, 17, 230, rng.randint(0, 9999)])) for _ in range(nc)) + '\n' for i in range(n)))
+            elif fam == 'lists':
+                base = dict(lists=[[rng.randint(-50, 500) for _ in range(rng.randint(1, 4))] for _ in range(n)])
+            elif fam == 'ints':
+                base = dict(ints=[rng.randint(0, 49) for _ in range(4)])
+            elif fam in ('rows', 'rows1'):
+                rows = _gen_rows(rng, n + 3)
+                if fam == 'rows1':
+                    # one chromosome, distinct starts, NOT sorted (bedgraph.get_pileup sorts the positions itself)
+                    starts = rng.sample(range(0, 50), n + 2)
+                    rows = [['chr1', st, min(60, st + rng.choice([1, 3, 10, 30])), rng.choice('+-')] for st in starts]
+                    if rows == sorted(rows):
+                        rows.reverse()
+                base = dict(rows=rows, rows2=_gen_rows(rng, rng.randint(2, 4)))
+            else:
+                base = dict(strs=_gen_strs(rng, fam, n))
+            for lay in layouts:
+                out.append(dict(kind='call', fn=fn, v=dict(base, layout=lay)))
+    return out
 
 
 # =============================================================================================== observe / emit
@@ -2049,10 +2387,19 @@ def _root_name(n):
     return n.id if isinstance(n, ast.Name) else type(n).__name__
 
 
+CTOR_NAMES = {'__init__', '__post_init__', '__new__', '__setattr__', '__setstate__', '__init_subclass__'}
+SCAN_DUNDERS = {'__setitem__', '__setattr__', '__delitem__', '__delattr__', '__iadd__', '__isub__', '__imul__', '__itruediv__',
+                '__ifloordiv__', '__imod__', '__ipow__', '__iand__', '__ior__', '__ixor__', '__ilshift__', '__irshift__', '__imatmul__'}
+
+
 def scan_file(path, rel):
     """Every in-place-writing statement of one source file: (key, line, text).
     key = rel::function qualname::kind::root name of the written object (no line numbers, no full text: re-spelling a
-    known write keeps its key; a write to another object, of another kind or in another function is a new key)."""
+    known write keeps its key; a write to another object, of another kind or in another function is a new key).
+    Kinds: setitem (x[..] = v, also tuple targets), setattr (x.a = v, x not self/cls), selfattr (self.a = v outside a
+    constructor; round 6), augassign, out= (keyword of any call), method.<m> for sort/fill/resize/put/..., call.<f> for
+    np.put/place/putmask/copyto/replace_inplace/.. and the builtins setattr/delattr (round 6), ufunc.at, dunder.<m> for an
+    explicit x.__setitem__/__iadd__/.. call (round 6), del (del x[..] / del x.a; round 6)."""
     tree = ast.parse(open(path).read())
     out = []
 
@@ -2068,13 +2415,25 @@ def scan_file(path, rel):
                 for t in tg:
                     flat += list(t.elts) if isinstance(t, (ast.Tuple, ast.List)) else [t]
                 for t in flat:
+                    if isinstance(t, ast.Starred):
+                        t = t.value
                     if isinstance(t, ast.Subscript):
                         kinds.append(('setitem', _root_name(t)))
                     elif isinstance(t, ast.Attribute) and _root_name(t) not in ('self', 'cls'):
                         kinds.append(('setattr', _root_name(t)))
+                    elif isinstance(t, ast.Attribute) and not (qual and qual[-1] in CTOR_NAMES):
+                        kinds.append(('selfattr', _root_name(t)))
             elif isinstance(ch, ast.AugAssign):
                 kinds.append(('augassign', _root_name(ch.target)))
+            elif isinstance(ch, ast.Delete):
+                for t in ch.targets:
+                    if isinstance(t, (ast.Subscript, ast.Attribute)):
+                        kinds.append(('del', _root_name(t)))
+            elif isinstance(ch, (ast.For, ast.AsyncFor)) and isinstance(ch.target, (ast.Subscript, ast.Attribute)):
+                kinds.append(('setitem', _root_name(ch.target)))
             for sub in ast.walk(ch) if not isinstance(ch, (ast.If, ast.For, ast.While, ast.With, ast.Try)) else []:
+                if isinstance(sub, ast.NamedExpr):
+                    continue
                 if isinstance(sub, ast.Call):
                     if any(k.arg == 'out' for k in sub.keywords):
                         o = [k.value for k in sub.keywords if k.arg == 'out'][0]
@@ -2082,8 +2441,12 @@ def scan_file(path, rel):
                     f = sub.func
                     if isinstance(f, ast.Attribute) and f.attr in SCAN_WRITE_METHODS and _root_name(f.value) not in ('np', 'numpy'):
                         kinds.append(('method.' + f.attr, _root_name(f.value)))
+                    if isinstance(f, ast.Attribute) and f.attr in SCAN_DUNDERS:
+                        kinds.append(('dunder.' + f.attr, _root_name(f.value)))
                     name = f.attr if isinstance(f, ast.Attribute) else f.id if isinstance(f, ast.Name) else None
                     if name in SCAN_WRITE_FUNCS and (isinstance(f, ast.Name) or _root_name(f) in ('np', 'numpy', 'strops')):
+                        kinds.append(('call.' + name, _root_name(sub.args[0]) if sub.args else '?'))
+                    if name in ('setattr', 'delattr') and isinstance(f, ast.Name):
                         kinds.append(('call.' + name, _root_name(sub.args[0]) if sub.args else '?'))
                     if name == 'at' and isinstance(f, ast.Attribute) and _root_name(f) in ('np', 'numpy'):
                         kinds.append(('ufunc.at', _root_name(sub.args[0]) if sub.args else '?'))
@@ -2111,7 +2474,10 @@ def scan_tree(pkg_dir, files=None):
         p = os.path.join(pkg_dir, rel)
         if os.path.exists(p):
             try:
-                res += scan_file(p, rel)
+                import warnings
+                with warnings.catch_warnings():
+                    warnings.simplefilter('ignore')
+                    res += scan_file(p, rel)
             except SyntaxError:
                 res.append(('%s::<unparsable>::?::?' % rel, 0, ''))
         else:
@@ -2119,8 +2485,26 @@ def scan_tree(pkg_dir, files=None):
     return res
 
 
-def unregistered_writes():
-    """In-place writes of the anchored files (current tree) outside every analysed function and not in ACCEPTED_WRITES."""
+ALLOWLIST_FILE = os.path.join(os.path.dirname(os.path.dirname(os.path.dirname(os.path.abspath(__file__)))), 'notes', 'C20.allowlist.json')
+
+
+def load_allowlist():
+    """notes/C20.allowlist.json: {"allow": [{"key": <scan key>, "count": <statements with that key at review time>,
+    "reason": <one line>}]}.  A missing / unreadable file allows nothing."""
+    try:
+        with open(ALLOWLIST_FILE) as f:
+            rows = json.load(f)['allow']
+        return {r['key']: (int(r['count']), r['reason']) for r in rows if r.get('reason', '').strip()}
+    except Exception:
+        return {}
+
+
+def write_gate():
+    """The registry-completeness gate (round 6: the WHOLE package, not only the anchored files).  Every in-place-writing
+    statement of bionumpy/**/*.py must be (a) inside a function whose body the extractor analysed while extracting some
+    registered site (then its effect is in Gen/C20.v and proved safe by Bridge/C20.v on this run), or (b) accepted by key in
+    ACCEPTED_WRITES (anchored files, phase 3), or (c) listed with a reason in notes/C20.allowlist.json with at least as
+    many statements allowed under that key as the source has now.  Anything else is returned as unregistered."""
     import bionumpy
     pkg = os.path.dirname(bionumpy.__file__)
     visited = set()
@@ -2128,16 +2512,38 @@ def unregistered_writes():
         try:
             for v in extract_site(sid)['visited']:
                 m, q = v.split(':')
-                visited.add((m.replace('bionumpy.', '', 1).replace('.', '/') + '.py', q))
+                rel = m.replace('bionumpy.', '', 1).replace('.', '/') if m != 'bionumpy' else '__init__'
+                visited.add((rel + '.py', q))
+                visited.add((rel + '/__init__.py', q))
         except Exception:
             pass                                  # a site that cannot be extracted analyses nothing (and fails elsewhere)
+    allow = load_allowlist()
+    groups = {}
+    for key, line, text in scan_tree(pkg):
+        groups.setdefault(key, []).append((line, text))
     out = []
-    for key, line, text in scan_tree(pkg, ANCHORED):
+    stats = dict(statements=0, covered_by_site=0, accepted_anchored=0, allowlisted=0, unregistered=0)
+    for key in sorted(groups):
         rel, fn, kind, root = key.split('::')
-        if (rel, fn) in visited or key in ACCEPTED_WRITES:
-            continue
-        out.append('%s (line %d: %s)' % (key, line, text))
-    return out
+        n = len(groups[key])
+        stats['statements'] += n
+        if (rel, fn) in visited:
+            stats['covered_by_site'] += n
+        elif key in ACCEPTED_WRITES:
+            stats['accepted_anchored'] += n
+        elif key in allow and n <= allow[key][0]:
+            stats['allowlisted'] += n
+        else:
+            stats['unregistered'] += n
+            why = 'more statements than allow-listed (%d > %d)' % (n, allow[key][0]) if key in allow else 'not registered, not allow-listed'
+            for line, text in groups[key]:
+                out.append('%s (line %d: %s) [%s]' % (key, line, text, why))
+    stale = sorted(k for k in allow if k not in groups)
+    return out, stats, stale
+
+
+def unregistered_writes():
+    return write_gate()[0]
 
 
 def _gc_arrays(obj, limit=50000):
@@ -2171,10 +2577,16 @@ def walker_gaps():
     missed = []
     R = registry()
     objs = []
+    r6 = {}
+    for c in gen_round6_cases(random.Random(11), 'quick'):
+        if c['v'].get('layout') in ('rowslice', 'strided', 'mask'):
+            r6.setdefault(c['fn'], c['v'])
     for fn in sorted(R):
         fam = FAMILY.get(fn)
         try:
-            if fam == 'ints':
+            if fn in r6:
+                v = r6[fn]
+            elif fam == 'ints':
                 v = dict(ints=[3, -4, 50])
             elif fam == 'lists':
                 v = dict(lists=[[1, 2], [3]])
